@@ -43,6 +43,43 @@ package keeper
 //@ ensures err == nil && old(ccCount(Store_tss, req.GroupID)) < MaxUint64 ==> ccCount(Store_tss, req.GroupID) == old(ccCount(Store_tss, req.GroupID)) + 1
 //@ ensures err != nil ==> Store_tss == old(Store_tss)
 
+// ---- C04: round-2 submission ----------------------------------------------------------------------
+//@ spec r2Count(s Store, g Int) Int = u64of(s[types.Round2InfoCountStoreKey(g)])
+
+// accumulated commits of a group (iterator loop over the store; what it returns is not modelled)
+//@ spec accCommitsOf(s Store, g Int) tss.Points uninterpreted
+//@ func (k Keeper) GetAllAccumulatedCommits
+//@ trusted
+//@ ensures result == accCommitsOf(Store_tss, groupID)
+
+// the member's public key is replaced, nothing else in the record and nothing else in the store; a failure
+// (key computation or unknown member) happens before any write
+// store invariant: the member record filed under (group, id) carries that group and id (SetMember files a record
+// under its own GroupID/ID)
+//@ spec wfMember(s Store, g Int, m Int) Bool = has(s, types.MemberStoreKey(g, m)) ==> (memberAt(s, g, m).GroupID == g && memberAt(s, g, m).ID == m)
+//@ func (k Keeper) UpdateMemberPubKey
+//@ modifies Store_tss
+//@ requires wfMember(Store_tss, groupID, memberID)
+//@ ensures err != nil ==> Store_tss == old(Store_tss)
+//@ ensures err == nil ==> old(has(Store_tss, types.MemberStoreKey(groupID, memberID)))
+//@ ensures err == nil ==> Store_tss == store(old(Store_tss), types.MemberStoreKey(groupID, memberID), enc(with(old(memberAt(Store_tss, groupID, memberID)), "PubKey", memberAt(Store_tss, groupID, memberID).PubKey)))
+//@ ensures err == nil ==> memberAt(Store_tss, groupID, memberID).PubKey == absfn("tss.ComputeOwnPublicKey#0", old(accCommitsOf(Store_tss, groupID)), memberID)
+
+// A round-2 submission is accepted only in round 2, only from the registered address of that member id, only
+// once per member, and only when it carries exactly one encrypted share for every OTHER member (size - 1:
+// a dealer that withholds a share must be rejected here, otherwise its victim cannot complain successfully);
+// it records exactly the submitted info and bumps the counter by one; a rejection changes nothing.
+//@ func (k msgServer) SubmitDKGRound2
+//@ modifies Store_tss
+//@ requires wfMember(Store_tss, req.GroupID, req.Round2Info.MemberID)
+//@ ensures err == nil ==> old(has(Store_tss, types.GroupStoreKey(req.GroupID))) && old(groupAt(Store_tss, req.GroupID)).Status == types.GROUP_STATUS_ROUND_2
+//@ ensures err == nil ==> old(has(Store_tss, types.MemberStoreKey(req.GroupID, req.Round2Info.MemberID))) && old(memberAt(Store_tss, req.GroupID, req.Round2Info.MemberID)).Address == req.Sender
+//@ ensures err == nil ==> !old(has(Store_tss, types.Round2InfoStoreKey(req.GroupID, req.Round2Info.MemberID)))
+//@ ensures err == nil ==> len(req.Round2Info.EncryptedSecretShares) + 1 == old(groupAt(Store_tss, req.GroupID)).Size_
+//@ ensures err == nil ==> has(Store_tss, types.Round2InfoStoreKey(req.GroupID, req.Round2Info.MemberID)) && dec(types.Round2Info, Store_tss[types.Round2InfoStoreKey(req.GroupID, req.Round2Info.MemberID)]) == req.Round2Info
+//@ ensures err == nil && old(r2Count(Store_tss, req.GroupID)) < MaxUint64 ==> r2Count(Store_tss, req.GroupID) == old(r2Count(Store_tss, req.GroupID)) + 1
+//@ ensures err != nil ==> Store_tss == old(Store_tss)
+
 //@ spec tssParams(s Store) types.Params = has(s, types.ParamsKey) ? dec(types.Params, s[types.ParamsKey]) : zero(types.Params)
 
 // C05: a submission that would raise the queued count above MaxDESize is rejected without effect;
